@@ -200,6 +200,7 @@ func (h *hist) genCreate(path string, exclude map[string]bool) request {
 	}
 	req := request{Kind: "create", Path: path, ChainType: "evm"}
 	req.Caller = h.pickCaller(path, exclude)
+	h.delegateSigner(&req, exclude)
 	req.Class = wpick(r, []string{"new", "dup", "badid", "badpayload", "badchaintype"}, []int{62, 26, 5, 4, 3})
 	if req.Class == "dup" && len(h.ids) == 0 {
 		req.Class = "new"
@@ -235,6 +236,13 @@ func (h *hist) genCreate(path string, exclude map[string]bool) request {
 	return req
 }
 
+// delegateSigner: on the tx path, u0's messages are sometimes signed by u3 (holder of u0's fee grant).
+func (h *hist) delegateSigner(req *request, exclude map[string]bool) {
+	if req.Path == "tx" && req.Caller == "u0" && !exclude["u3"] && h.r.Intn(100) < 75 {
+		req.Signer = "u3"
+	}
+}
+
 func (h *hist) pickCaller(path string, exclude map[string]bool) string {
 	pool := h.e.users
 	if path == "wasm" || path == "wasm-legacy" {
@@ -255,10 +263,12 @@ func (h *hist) genExec(path string, exclude map[string]bool) request {
 	}
 	req := request{Kind: "exec", Path: path}
 	req.Caller = h.pickCaller(path, exclude)
+	h.delegateSigner(&req, exclude)
 	if len(h.ids) > 0 && r.Intn(100) < 90 {
 		req.JobID = pick(r, h.ids)
 		// lean towards jobs that never ran successfully, so that every job gets exercised
-		for try := 0; try < 2 && h.jobs[req.JobID].Execs > 0; try++ {
+		// and away from jobs that keep failing (no relayer for their chain, unknown chain)
+		for try := 0; try < 2 && (h.jobs[req.JobID].Execs > 0 || h.jobs[req.JobID].Fails >= 3) && r.Intn(4) != 0; try++ {
 			req.JobID = pick(r, h.ids)
 		}
 	} else {
